@@ -7,7 +7,7 @@ C05 — storage read proofs.  Executable model of
   pkg/trie/inmemory/in_memory.go        Get / retrieve on the proof trie (with the proof database)
 
 as the code is after the `fix:` commits of C05 (empty-node panic, empty inlined leaf, hashed value
-added by Generate).  Core Lean only.
+added by Generate, hashed branch value resolved by `retrieveFromBranch`).  Core Lean only.
 
 * the state is a `Trie` of `TrieSpec` (what `Load` rebuilds from the database), encoded by
   `encodeNode ver H`;
@@ -18,8 +18,7 @@ added by Generate).  Core Lean only.
 
 Quirks kept: `len(fullKey) == 0` short cuts of walkRoot/walk and of retrieveFromBranch, the child
 index taken at `lenCommonPrefix` although the partial key is not a prefix of the key (walk), the
-value compared only when the claimed value is non-empty, `retrieveFromBranch` returning the stored
-32-byte hash of a branch whose value is held by hash (`retrieveFromLeaf` resolves it).
+value compared only when the claimed value is non-empty.
 -/
 import Gossamer.Lib.TrieCodec
 import Gossamer.Lib.TrieMem
@@ -115,7 +114,7 @@ def loadKids (strict : Bool) (m : Pairs) : Nat → List Node → Except VOut (Li
       | .error e => .error e
 end
 
-/-- a stored value as `Get` returns it: a leaf resolves a hashed value through the proof database
+/-- a stored value as `Get` returns it: a hashed value is resolved through the proof database
     (`db.Get`: `nil` when absent) -/
 def leafValue (db : Pairs) (v : Option Bytes) (hashed : Bool) : Option Bytes :=
   if hashed then (match v with | some h => mapGet db h | none => none) else v
@@ -126,8 +125,8 @@ def pget (db : Pairs) : Node → Bytes → Option Bytes
   | .empty, _ => none
   | .stub _, _ => none       -- a leaf without key and without value
   | .leaf pk v hashed, key => if pk = key then leafValue db v hashed else none
-  | .branch pk v _ kids, key =>
-    if key.length = 0 || pk == key then v   -- the stored bytes, hashed or not
+  | .branch pk v hashed kids, key =>
+    if key.length = 0 || pk == key then leafValue db v hashed
     else if !(pk.isPrefixOf key) then none
     else
       match key.drop pk.length with
